@@ -7,10 +7,12 @@
 //   counters <threads> <calls> <seed>                        shared SpaceInformation: checkMotion / isValid
 //   gnat <threads> <n> <queries> <k> <seed> [<reps> <small>] shared NearestNeighborsGNAT: nearest / nearestK / nearestR, every
 //                                                            answer vs sequential vs brute force; small=1: degree 4, leaves of 8
-//   rng <threads> <per>                                      concurrent RNG construction (seed stream)
+//   rng <threads> <per> [<mode>]                             concurrent RNG construction (seed stream); mode 1: setSeed after first use
 //   spaces <threads> <per> <list 0|1>                        concurrent StateSpace creation / destruction (+ StateSpace::List)
 //   solutions <adders> <readers> <per>                       addSolutionPath / getSolutions on one ProblemDefinition
 //   logging <threads> <per>                                  OMPL_INFORM + handler / level changes
+//   logpark <rounds>                                         directed: a handler that parks inside log() while a second thread
+//                                                            logs / replaces the handler (overlap, stale handler, order, counts)
 //   solmix <adders> <readers> <clearers> <per> <seed>        add / getSolutions / clearSolutionPaths mixed; real-time-order oracle
 //   solrace <k> <rounds>                                     directed: an add whose sort is held open (objective hook) while
 //                                                            clear + k adds run; outcome must be one of the sequential ones
@@ -41,6 +43,7 @@
 #include <array>
 #include <atomic>
 #include <chrono>
+#include <cstdio>
 #include <map>
 #include <random>
 #include <sched.h>
@@ -351,6 +354,19 @@ namespace
     {
         size_t i = 1;
         unsigned threads = needN(t, i), per = needN(t, i);
+        // optional mode 1: setSeed AFTER first use (some generators exist already; the library logs an error but reseeds the
+        // seed generator all the same): the concurrent hand-outs must then be a window of the stream of the NEW seed
+        unsigned mode = i < t.size() ? needN(t, i) : 0;
+        if (mode == 1)
+        {
+            for (int k = 0; k < 3; ++k)
+            {
+                ompl::RNG first;
+                (void)first.getLocalSeed();
+            }
+            rootSeed = rootSeed + 17;
+            ompl::RNG::setSeed(rootSeed);
+        }
         std::vector<std::vector<std::uint_fast32_t>> got(threads);
         SpinBarrier bar(threads);
         runThreads(threads, [&](unsigned th) {
@@ -391,7 +407,18 @@ namespace
             std::set<std::uint_fast32_t> d(stream.begin() + window, stream.begin() + window + all.size());
             refDistinct = d.size();
         }
-        return "rng threads=" + std::to_string(threads) + " created=" + std::to_string(all.size()) +
+        // per-thread view: the k-th generator of two different threads must not get the same seed more often than the
+        // reference window repeats values (a per-thread seed generator would make whole columns equal)
+        size_t equalColumns = 0;
+        for (unsigned c = 0; c < per; ++c)
+        {
+            bool allEqual = threads >= 2;
+            for (unsigned th = 1; th < threads && allEqual; ++th)
+                allEqual = got[th][c] == got[0][c];
+            equalColumns += allEqual ? 1 : 0;
+        }
+        return "rng threads=" + std::to_string(threads) + " mode=" + std::to_string(mode) + " equal_columns=" + std::to_string(equalColumns) +
+               " created=" + std::to_string(all.size()) +
                " distinct=" + std::to_string(distinct.size()) + " window=" + std::to_string(window) +
                " ref_distinct=" + std::to_string(refDistinct);
     }
@@ -1372,6 +1399,144 @@ namespace
                " phantom=" + std::to_string(seenBefore.load()) + " sticky=" + std::to_string(sticky);
     }
 
+    // ---------------------------------------------------------------- directed: a handler that parks inside log()
+    // The console promises that OutputHandler::log() is entered by one thread at a time ("it is likely the outputhandler
+    // does some I/O, so we serialize it") - handlers carry no synchronisation of their own - and, as a consequence of the
+    // same lock, that useOutputHandler / noOutputHandler / restorePreviousOutputHandler return only when no message is
+    // being written by the handler they replace (its owner may destroy it then).  ParkHandler records entries and exits
+    // with atomics; in a round, the first thread to enter parks inside log() until a second thread has announced that it
+    // is about to call the console (handshake) and a bounded time has passed - on a correct console the second thread
+    // simply blocks on the console lock for that time.
+    class ParkHandler : public ompl::msg::OutputHandler
+    {
+    public:
+        void log(const std::string &text, ompl::msg::LogLevel, const char *, int) override
+        {
+            int now = inside.fetch_add(1, std::memory_order_acq_rel) + 1;
+            if (now > 1)
+                overlap.fetch_add(1, std::memory_order_relaxed);
+            received.fetch_add(1, std::memory_order_relaxed);
+            // program order per sender: "<sender> <serial>"
+            unsigned sender = 0, serial = 0;
+            if (std::sscanf(text.c_str(), "park %u %u", &sender, &serial) == 2 && sender < 64)
+            {
+                unsigned prev = (*lastSerial)[sender].exchange(serial + 1, std::memory_order_acq_rel);
+                if (prev != serial)
+                    orderBad.fetch_add(1, std::memory_order_relaxed);
+            }
+            if (armed.exchange(false, std::memory_order_acq_rel))
+            {
+                parked.store(true, std::memory_order_release);
+                // stay inside until the partner has announced its call and then `hold` more microseconds (or it got in)
+                auto t0 = std::chrono::steady_clock::now();
+                bool seenPartner = false;
+                auto tPartner = t0;
+                for (;;)
+                {
+                    auto t = std::chrono::steady_clock::now();
+                    if (inside.load(std::memory_order_acquire) > 1)
+                        break;  // somebody else is in here with us: that is the observation
+                    if (!seenPartner && partnerCalling.load(std::memory_order_acquire))
+                    {
+                        seenPartner = true;
+                        tPartner = t;
+                    }
+                    if (seenPartner && t - tPartner > std::chrono::microseconds(3000))
+                        break;
+                    if (t - t0 > std::chrono::milliseconds(500))
+                        break;  // the partner never came: give up (liveness of the harness itself)
+                    sched_yield();
+                }
+                parked.store(false, std::memory_order_release);
+            }
+            inside.fetch_sub(1, std::memory_order_acq_rel);
+        }
+        std::atomic<int> inside{0};
+        std::atomic<unsigned long> overlap{0}, received{0}, orderBad{0};
+        std::atomic<bool> armed{false}, parked{false}, partnerCalling{false};
+        std::array<std::atomic<unsigned>, 64> *lastSerial = nullptr;  // shared by the handlers of one scenario
+    };
+
+    // logpark <rounds>: per round four scenarios, each with thread A parked inside h1.log():
+    //   0 a second thread logs               -> must not be inside a handler together with A
+    //   1 useOutputHandler(&h2) / 2 noOutputHandler() / 3 restorePreviousOutputHandler() from the main thread
+    //                                        -> when the call returns, nobody may still be executing inside h1
+    std::string opLogPark(const std::vector<std::string> &t)
+    {
+        size_t i = 1;
+        unsigned rounds = needN(t, i);
+        if (i != t.size())
+            throw vp::ParseError("logpark");
+        ompl::msg::OutputHandler *old = ompl::msg::getOutputHandler();
+        ompl::msg::LogLevel oldLevel = ompl::msg::getLogLevel();
+        unsigned long overlap = 0, sent = 0, received = 0, orderBad = 0, notParked = 0;
+        unsigned long stale[4] = {0, 0, 0, 0};
+        bool liveness = true;
+        for (unsigned r = 0; r < rounds; ++r)
+            for (unsigned sc = 0; sc < 4; ++sc)
+            {
+                ParkHandler h1, h2;
+                std::array<std::atomic<unsigned>, 64> serials{};
+                h1.lastSerial = h2.lastSerial = &serials;
+                ompl::msg::useOutputHandler(&h2);   // previous := whatever, current := h2
+                ompl::msg::useOutputHandler(&h1);   // previous := h2, current := h1
+                ompl::msg::setLogLevel(ompl::msg::LOG_INFO);
+                h1.armed = true;
+                std::atomic<unsigned> serialA{0};
+                std::thread a([&] {
+                    OMPL_INFORM("park %u %u", 0u, serialA.fetch_add(1));
+                    OMPL_INFORM("park %u %u", 0u, serialA.fetch_add(1));
+                });
+                sent += 2;
+                auto t0 = std::chrono::steady_clock::now();
+                while (!h1.parked.load(std::memory_order_acquire) && std::chrono::steady_clock::now() - t0 < std::chrono::seconds(2))
+                    sched_yield();
+                if (!h1.parked.load(std::memory_order_acquire))
+                    ++notParked;
+                if (sc == 0)
+                {
+                    std::thread b([&] {
+                        h1.partnerCalling.store(true, std::memory_order_release);
+                        OMPL_INFORM("park %u %u", 1u, 0u);
+                        OMPL_WARN("park %u %u", 1u, 1u);
+                    });
+                    sent += 2;
+                    b.join();
+                }
+                else
+                {
+                    h1.partnerCalling.store(true, std::memory_order_release);
+                    if (sc == 1)
+                        ompl::msg::useOutputHandler(&h2);
+                    else if (sc == 2)
+                        ompl::msg::noOutputHandler();
+                    else
+                        ompl::msg::restorePreviousOutputHandler();
+                    // the call has returned: the replaced handler must be idle (its owner may destroy it now)
+                    if (h1.inside.load(std::memory_order_acquire) != 0)
+                        ++stale[sc];
+                }
+                a.join();
+                // A's second message goes to whatever handler is current after the replacement (none for sc == 2)
+                unsigned long got = h1.received + h2.received;
+                unsigned long want = sc == 0 ? 4 : (sc == 2 ? 1 : 2);
+                // sc 2: A's second message may have been sent before or after noOutputHandler(): 1 or 2 are both sequential outcomes
+                if (!(got == want || (sc == 2 && got == 2)))
+                    liveness = false;
+                received += got;
+                overlap += h1.overlap + h2.overlap;
+                orderBad += h1.orderBad + h2.orderBad;
+                ompl::msg::useOutputHandler(old);
+            }
+        ompl::msg::useOutputHandler(old);
+        ompl::msg::setLogLevel(oldLevel);
+        return "logpark rounds=" + std::to_string(rounds) + " parked_missing=" + std::to_string(notParked) +
+               " overlap=" + std::to_string(overlap) + " stale_use=" + std::to_string(stale[1]) +
+               " stale_none=" + std::to_string(stale[2]) + " stale_restore=" + std::to_string(stale[3]) +
+               " order_bad=" + std::to_string(orderBad) + " counts_ok=" + std::to_string(liveness ? 1 : 0) +
+               " sent=" + std::to_string(sent) + " received=" + std::to_string(received);
+    }
+
     // ---------------------------------------------------------------- multi-threaded planners
     // validity = in bounds and outside every box; with probability perturb/1000 the call yields or sleeps a few
     // microseconds first (it runs on the planner's worker threads), to shake the schedule
@@ -1564,6 +1729,8 @@ int main()
                 out = opCfRace(t);
             else if (t[0] == "logging")
                 out = opLogging(t);
+            else if (t[0] == "logpark")
+                out = opLogPark(t);
             else if (t[0] == "terminate")
                 out = opTerminate(t);
             else if (t[0] == "planner")
